@@ -7,18 +7,15 @@ import ClockBound.Proofs.RsSeqlock
 namespace ClockBound.Rs.SeqlockProof
 open ClockBound ClockBound.Rs ClockBound.Generated ClockBound.Rs.DictShm ClockBound.Rs.EmbedShm
 
-/-- the local variables at the head of the retry loop: the remaining budget (an `i32` once it has been
-    decremented, an untyped literal before), the generation to confirm, and the reader -/
-def LS (t : IntTy) (v : Nat) : MkSt := fun k g1 cg cache lg pos =>
-  { env := [(nm 4, .int t k), (nm 3, .int .u16 g1), (nm 2, refA16 "generation"),
-            (nm 1, .int .u16 v), (nm 0, refA16 "version"), ("self", readerValue cg cache)],
-    log := lg, pos := pos }
+/-- the loop state of the `while` form: the generic layout (`LSg`, read off the probe run) -/
+abbrev LS (t : IntTy) (v : Nat) : MkSt := LSg t v
 
+/-- what `simp` needs to evaluate the layout -/
 theorem goodMk_LS (t : IntTy) (v : Nat) (c : Expr) (b : List Stmt)
     (hcb : findWhile Code.fn_ShmReader__snapshot_stmts = some (c, b)) : GoodMk (LS t v) := by
   first
   | (exfalso; simp [rs_eval] at hcb; done)
-  | (intro k g1 cg cache lg pos; simp [LS, nm, nth, topLets, envGet])
+  | (intro k g1 cg cache lg pos; simp [LSg, probeEnv, probeSt, loopPrefix, probeInp, relabel, sfr, rs_eval, rs_code, rawInp, readerValue, wordsValue, envGet])
 
 set_option maxRecDepth 8000 in
 /-- the loop condition `retries > 0` on a positive budget -/
@@ -34,7 +31,7 @@ theorem cond_succ (inp : Nat → Nat) (nowNs : Int) (sizes : List (String × Nat
      obtain ⟨rfl, rfl⟩ := hcb
      obtain ⟨M, rfl⟩ := Nat.exists_eq_add_of_le' hN
      have h : (0 : Int) < (k : Int) + 1 := by omega
-     rcases ht with rfl | rfl <;> simp [rs_eval, LS, nm, nth, topLets, sfr, h])
+     rcases ht with rfl | rfl <;> simp [rs_eval, rs_code, LSg, probeEnv, probeSt, loopPrefix, probeInp, relabel, rawInp, readerValue, wordsValue, sfr, h])
 
 set_option maxRecDepth 8000 in
 /-- … and on an exhausted one -/
@@ -49,7 +46,7 @@ theorem cond_zero (inp : Nat → Nat) (nowNs : Int) (sizes : List (String × Nat
   | (simp [rs_eval] at hcb
      obtain ⟨rfl, rfl⟩ := hcb
      obtain ⟨M, rfl⟩ := Nat.exists_eq_add_of_le' hN
-     rcases ht with rfl | rfl <;> simp [rs_eval, LS, nm, nth, topLets, sfr])
+     rcases ht with rfl | rfl <;> simp [rs_eval, rs_code, LSg, probeEnv, probeSt, loopPrefix, probeInp, relabel, rawInp, readerValue, wordsValue, sfr])
 
 set_option maxRecDepth 8000 in
 set_option maxHeartbeats 2000000 in
@@ -65,10 +62,10 @@ theorem iter_eq (inp : Nat → Nat) (nowNs : Int) (sizes : List (String × Nat))
     = if g1 = typedInp inp (pos + SL.N) then
         .ret (.enumv "Ok" [wordsValue (SL.attemptCells (typedInp inp) pos)])
           (LS t v (k + 1) g1 g1 (SL.attemptCells (typedInp inp) pos)
-            (lg ++ (SL.attemptAccs {} (typedInp inp) pos).map accValue) (pos + SL.N + 1))
+            (lg ++ (SL.attemptAccs snapAnn (typedInp inp) pos).map accValue) (pos + SL.N + 1))
       else
         next (LS .i32 v k (if typedInp inp (pos + SL.N) % 2 = 0 then typedInp inp (pos + SL.N) else g1) cg cache
-          (lg ++ (SL.attemptAccs {} (typedInp inp) pos).map accValue) (pos + SL.N + 1)) := by
+          (lg ++ (SL.attemptAccs snapAnn (typedInp inp) pos).map accValue) (pos + SL.N + 1)) := by
   first
   | (exfalso; simp [rs_eval] at hcb; done)
   | (simp [rs_eval] at hcb
@@ -78,9 +75,11 @@ theorem iter_eq (inp : Nat → Nat) (nowNs : Int) (sizes : List (String × Nat))
      have hhi : (k : Int) ≤ IntTy.hi .i32 := by show (k : Int) ≤ 2147483647; omega
      have hchk : ∀ st, chkInt .i32 (k : Int) st = .val (.int .i32 k) st :=
        fun st => chkInt_ok .i32 k st (by decide) hlo hhi
+     eval_bodyLog hbl
      rcases ht with rfl | rfl <;>
-     · simp [rs_eval, rs_code, LS, nm, nth, topLets, sfr, rawInp, readerValue, wordsValue, readWords_attempt inp hpos,
-         typedInp_gen2 inp hpos, wordLoads_attempt, hchk, SL.attemptAccs, accValue, locValue, locTy, ordValue]
+     · simp [rs_eval, rs_code, LSg, probeEnv, probeSt, loopPrefix, probeInp, relabel, sfr, rawInp, readerValue, wordsValue,
+         readWords_attempt inp hpos, typedInp_gen2 inp hpos, wordLoads_attempt, hchk, SL.attemptAccs, accValue, locValue,
+         locTy, ordValue, snapAnn, hbl, evOrd, isFenceEv, lastOf, ordOfValue, evLoad, evFence]
        split_ifs <;> simp_all <;> omega)
 
 /-- the loop of `ShmReader::snapshot` with a budget of `k` retries, for every fuel ≥ `k + 31` -/
@@ -95,7 +94,7 @@ theorem loop_eq (inp : Nat → Nat) (nowNs : Int) (sizes : List (String × Nat))
     intro _ t ht pos _ g1 lg N hN
     obtain ⟨M, rfl⟩ : ∃ M, N = M + 1 := ⟨N - 1, by omega⟩
     rw [evalWhile_succ, cond_zero inp nowNs sizes c b hcb t ht g1 v cg cache lg pos M (by omega)]
-    simp [loopOutG, LS, St.popTo, Res.bind_val]
+    simp [loopOutG, LSg, St.popTo, Res.bind_val]
   | succ k ih =>
     intro hk t ht pos hpos g1 lg N hN
     obtain ⟨M, rfl⟩ : ∃ M, N = M + 1 := ⟨N - 1, by omega⟩
